@@ -1,0 +1,138 @@
+//go:build verif
+
+// Contracts for package cputensor, read by /verif/qv (comment-only file; contains no executable code).
+
+package cputensor
+
+//@ define isAll(r) := r.From == 0 && r.To == 0
+//@ define imax(a, b) := ite(a > b, a, b)
+//@ define bdim(d1, d2, k, n) := ite(k - (n - len(d1)) >= 0 && k - (n - len(d2)) >= 0, imax(d1[k-(n-len(d1))], d2[k-(n-len(d2))]),
+//@                              ite(k - (n - len(d1)) >= 0, d1[k-(n-len(d1))], d2[k-(n-len(d2))]))
+
+/* ---------------- cputensor_helpers.go ---------------- */
+
+//@ func targetBroadcastDims
+//@   ensures[C03,C04] len(dims) == imax(len(dims1), len(dims2))
+//@   ensures[C03,C04] forall(k, 0, len(dims), dims[k] == bdim(dims1, dims2, k, len(dims)))
+//@   loop 0 invariant len(dims) == len(large) && len(small) <= len(large) && 0 <= i && i <= len(small) && j == i + len(large) - len(small)
+//@   loop 0 invariant forall(k, j, len(large), dims[k] == imax(small[k-(len(large)-len(small))], large[k]))
+//@   loop 0 decreases i
+//@   loop 1 invariant len(dims) == len(large) && len(small) <= len(large) && 0 <= j && j <= len(large) - len(small)
+//@   loop 1 invariant forall(k, len(large)-len(small), len(large), dims[k] == imax(small[k-(len(large)-len(small))], large[k]))
+//@   loop 1 invariant forall(k, j, len(large)-len(small), dims[k] == large[k])
+//@   loop 1 decreases j
+
+/* ---------------- shape_modifiers.go ---------------- */
+
+//@ func transposeDims
+//@   requires len(dims) >= 2
+//@   ensures[C04] len(res) == len(dims) && forall(k, 0, len(dims)-2, res[k] == dims[k])
+//@   ensures[C04] res[len(dims)-2] == dims[len(dims)-1] && res[len(dims)-1] == dims[len(dims)-2]
+
+//@ func unsqueezeDims
+//@   requires 0 <= dim && dim <= len(dims)
+//@   ensures[C06] len(res) == len(dims)+1 && res[dim] == 1
+//@   ensures[C06] forall(k, 0, dim, res[k] == dims[k]) && forall(k, dim+1, len(res), res[k] == dims[k-1])
+
+//@ func squeezeDims
+//@   requires 0 <= dim && dim < len(dims)
+//@   ensures[C06,C05] len(res) == len(dims)-1
+//@   ensures[C06,C05] forall(k, 0, dim, res[k] == dims[k]) && forall(k, dim, len(res), res[k] == dims[k+1])
+
+//@ func flattenDims
+//@   requires 0 <= dim && dim < len(dims)
+//@   ensures[C06] len(res) == dim+1 && forall(k, 0, dim, res[k] == dims[k]) && res[dim] == prod(dims, dim, len(dims))
+//@   loop 0 invariant dim <= i && i <= len(dims) && nElems == prod(dims, dim, i)
+//@   loop 0 decreases len(dims) - i
+
+/* ---------------- operators.go ---------------- */
+
+//@ func dotDims
+//@   requires len(idims) >= 1
+//@   ensures[C04] len(dims) == len(idims)-1 && forall(k, 0, len(dims), dims[k] == idims[k])
+
+//@ func matMulDims
+//@   requires len(dims1) >= 2 && len(dims2) >= len(dims1)
+//@   ensures[C04] len(dims) == len(dims1) && forall(k, 0, len(dims)-2, dims[k] == dims1[k])
+//@   ensures[C04] dims[len(dims)-2] == dims1[len(dims1)-2] && dims[len(dims)-1] == dims2[len(dims1)-1]
+
+/* ---------------- accessors.go ---------------- */
+
+//@ func completeIndex
+//@   ensures[C06] len(cidx) == len(dims)
+//@   ensures[C06] forall(k, 0, len(dims), ite(k >= len(index) || isAll(index[k]), cidx[k].From == 0 && cidx[k].To == dims[k], cidx[k] == index[k]))
+//@   loop 0 invariant len(cidx) == len(dims)
+//@   loop 0 invariant forall(k, 0, i, ite(k >= len(index) || isAll(index[k]), cidx[k].From == 0 && cidx[k].To == dims[k], cidx[k] == index[k]))
+
+//@ func CPUTensor.numElems
+//@   ensures[C06] n == prod(t.dims, 0, len(t.dims))
+//@   loop 0 invariant n == prod(t.dims, 0, _i0)
+
+/* ---------------- abstract tensors (interface level; DESIGN.md 3.4) ---------------- */
+
+//@ define imin(a, b) := ite(a < b, a, b)
+//@ define tinv(t) := t != nil && t.gctx != nil
+//@ define dirtyT(x) := x.gctx.bpdirty
+//@ define trkT(x) := x.gctx.tracked
+//@ define ctx0(o) := o.gctx != nil && o.gctx.gradient == nil && !dirtyT(o) && !trkT(o) && len(o.gctx.backEdges) == 0
+//@ define ctx1(o, x) := o.gctx != nil && o.gctx.gradient == nil && dirtyT(o) == dirtyT(x) && trkT(o) == (!dirtyT(x) && trkT(x))
+//@ define ctx2(o, a, b) := o.gctx != nil && o.gctx.gradient == nil && dirtyT(o) == (dirtyT(a) || dirtyT(b))
+//@                         && trkT(o) == (!dirtyT(a) && !dirtyT(b) && (trkT(a) || trkT(b)))
+//@ define edgeOK(o, e) := e != nil && e.gradFn != nil && srcOf(e.gradFn) == o && e.target == tgtOf(e.gradFn) && tinv(e.target)
+//@ define edgeInv(o) := forall(k, 0, len(o.gctx.backEdges), edgeOK(o, o.gctx.backEdges[k]))
+//@ define isGrad(g) := g != nil && g.gctx != nil && dirtyT(g) && !trkT(g)
+//@ define gradOf(y) := y.gctx.gradient
+//@ define chainPre(y) := y != nil && y.gctx != nil && dirtyT(y) && isGrad(gradOf(y)) && sameShape(gradOf(y), y)
+//@ define bdimT(a, b, k, n) := ite(k - (n - rank(a)) >= 0 && k - (n - rank(b)) >= 0, imax(dim(a, k-(n-rank(a))), dim(b, k-(n-rank(b)))),
+//@                              ite(k - (n - rank(a)) >= 0, dim(a, k-(n-rank(a))), dim(b, k-(n-rank(b)))))
+//@ predicate bcompat(a T, b T) := forall(k, 0, imin(rank(a), rank(b)), dim(a, rank(a)-1-k) == dim(b, rank(b)-1-k) || dim(a, rank(a)-1-k) == 1 || dim(b, rank(b)-1-k) == 1)
+//@ predicate bshape(o T, a T, b T) := rank(o) == imax(rank(a), rank(b)) && forall(k, 0, rank(o), dim(o, k) == bdimT(a, b, k, rank(o)))
+
+//@ func CPUTensor.GradContext
+//@   ensures gctx == anyOf(t.gctx)
+
+//@ func CPUTensor.Gradient
+//@   requires t.gctx != nil
+//@   ensures g == t.gctx.gradient
+
+//@ func CPUTensor.ResetGradContext
+//@   modifies CPUTensor.gctx
+//@   ensures[C08] t.gctx != nil && t.gctx.tracked == tracked && !t.gctx.bpdirty && t.gctx.gradient == nil && len(t.gctx.backEdges) == 0
+//@   ensures[C08,C10] forallT(x, x == t || x.gctx == old(x.gctx))
+
+/* ---------------- index / shape vocabulary of the interface contracts ---------------- */
+
+//@ define rangeOK(r, d) := isAll(r) || (0 <= r.From && r.From < r.To && r.To <= d)
+//@ define rfrom(index, k) := ite(k < len(index) && !isAll(index[k]), index[k].From, 0)
+//@ define rwidth(index, k, d) := ite(k < len(index) && !isAll(index[k]), index[k].To - index[k].From, d)
+//@ define sliceOK(index, t) := len(index) <= rank(t) && forall(k, 0, len(index), rangeOK(index[k], dim(t, k)))
+//@ define sliceShape(o, t, index) := rank(o) == rank(t) && forall(k, 0, rank(t), dim(o, k) == rwidth(index, k, dim(t, k)))
+//@ define patchOK(index, u, t) := rank(u) == rank(t) && forall(k, 0, rank(u), dim(u, k) <= dim(t, k)) && sliceOK(index, t)
+//@                               && forall(k, 0, len(index), isAll(index[k]) || index[k].To - index[k].From == dim(u, k))
+//@ define inBox(J, index, u) := forall(k, 0, rank(u), rfrom(index, k) <= J[k] && J[k] < rfrom(index, k) + dim(u, k))
+//@ predicate redShape(o T, t T, d Int) := rank(o) == rank(t) - 1 && forall(k, 0, d, dim(o, k) == dim(t, k)) && forall(k, d, rank(o), dim(o, k) == dim(t, k+1))
+//@ predicate unsqShape(o T, t T, d Int) := rank(o) == rank(t) + 1 && dim(o, d) == 1 && forall(k, 0, d, dim(o, k) == dim(t, k)) && forall(k, d+1, rank(o), dim(o, k) == dim(t, k-1))
+//@ predicate trShape(o T, t T) := rank(o) == rank(t) && forall(k, 0, rank(t)-2, dim(o, k) == dim(t, k)) && dim(o, rank(t)-2) == dim(t, rank(t)-1) && dim(o, rank(t)-1) == dim(t, rank(t)-2)
+//@ define hasShape(o, shape) := rank(o) == len(shape) && forall(k, 0, len(shape), dim(o, k) == shape[k])
+//@ define bcastOK(t, shape) := forall(k, 0, len(shape), shape[k] > 0) && rank(t) <= len(shape)
+//@                             && forall(k, 0, rank(t), dim(t, k) == shape[k + len(shape) - rank(t)] || dim(t, k) == 1)
+//@ define close(a, b) := abs(a - b) <= 1e-240
+// batch dimensions (all but the last two) are broadcast against each other for MatMul
+//@ predicate mmcompat(a T, b T) := forall(k, 2, imin(rank(a), rank(b)), dim(a, rank(a)-1-k) == dim(b, rank(b)-1-k) || dim(a, rank(a)-1-k) == 1 || dim(b, rank(b)-1-k) == 1)
+//@ predicate mmshape(o T, a T, b T) := rank(o) == imax(rank(a), rank(b)) && forall(k, 0, rank(o)-2, dim(o, k) == bdimT(a, b, k, rank(o)))
+//@                            && dim(o, rank(o)-2) == dim(a, rank(a)-2) && dim(o, rank(o)-1) == dim(b, rank(b)-1)
+
+/* ---------------- lemmas about index maps (each is proved from the definitions on every run) ---------------- */
+
+//@ lemma projInb: forallT(t, forallT(o, forallJ(J, imp(inb(o, J) && rank(t) <= rank(o)
+//@                && forall(k, 0, rank(t), dim(t, k) == dim(o, k + rank(o) - rank(t)) || dim(t, k) == 1), inb(t, proj(t, o, J))))))
+//@ lemma delInbUnsq: forallT(t, forallT(o, forallI(d, forallJ(J, imp(unsqShape(o, t, d) && 0 <= d && d <= rank(t) && inb(o, J), inb(t, del(J, d)))))))
+//@ lemma delInbRed: forallT(t, forallT(o, forallI(d, forallJ(J, imp(redShape(o, t, d) && 0 <= d && d < rank(t) && inb(t, J), inb(o, del(J, d)))))))
+
+//@ lemma bshapeLeft: forallT(o, forallT(a, forallT(b, imp(bshape(o, a, b) && rank(b) <= rank(a)
+//@                   && forall(k, 0, rank(b), dim(b, k) == dim(a, k + rank(a) - rank(b)) || dim(b, k) == 1), sameShape(o, a)))))
+//@ lemma bshapeRight: forallT(o, forallT(a, forallT(b, imp(bshape(o, a, b) && rank(a) <= rank(b)
+//@                   && forall(k, 0, rank(a), dim(a, k) == dim(b, k + rank(b) - rank(a)) || dim(a, k) == 1), sameShape(o, b)))))
+//@ lemma bcompatSame: forallT(a, forallT(b, imp(sameShape(a, b), bcompat(a, b))))
+//@ lemma unsqRed: forallT(u, forallT(m, forallT(x, forallI(d, imp(unsqShape(u, m, d) && redShape(m, x, d) && 0 <= d && d < rank(x),
+//@                   rank(u) == rank(x) && forall(k, 0, rank(x), dim(u, k) == dim(x, k) || dim(u, k) == 1) && bcompat(x, u))))))
